@@ -52,11 +52,21 @@ def tlc(work, cfg, timeout=900):
             "states": int(m.group(1)) if m else 0, "distinct": int(m.group(2)) if m else 0}
 
 
-def model_check(work):
+BIG_BOUNDS = {"MaxNets": 3, "MaxSims": 4, "Stages": 3, "NParams": 2, "NSeeds": 2, "MaxLen": 13}
+
+
+def model_check(work, tier="quick"):
     """returns (report dict, list of terminal histories); raises RuntimeError if the model itself misbehaves"""
     from harness.tlc import copy_spec
     copy_spec(work)
     rep = {}
+    if tier == "thorough":
+        # NonInterference on a larger instance (3 Networks, 4 Simulations, 3 stages, 13 operations: 4.8M states)
+        write_cfg(os.path.join(work, "big.cfg"), bounds=BIG_BOUNDS)
+        r = tlc(work, "big.cfg", timeout=3000)
+        if r["rc"] != 0 or r["violated"]:
+            raise RuntimeError("CiwHist: NonInterference fails on the larger instance\n" + r["out"][-2000:])
+        rep["ideal_large"] = {"distinct": r["distinct"], "states": r["states"], "bounds": BIG_BOUNDS}
     write_cfg(os.path.join(work, "ideal.cfg"))
     r = tlc(work, "ideal.cfg")
     if r["rc"] != 0 or r["violated"]:
